@@ -262,5 +262,6 @@ def main(chk):
     for i in (0, len(progs) // 2, len(progs) - 1):
         chk.sample({"program": progs[i], "expected_out": cases[i][2], "impl_out": res[i]["impl"].get("out"), "model_verdict": res[i]["verdict"]})
     chk.cov["rule"] += " Added after seeded round 5: `new` on a started iterator, `recur` before the yield and locals used after `recur`."
+    chk.cov["rule"] += " Added after seeded round 6: a round without a yield stops that call only, StopIterErr from the callee of a chain over an iterator is an error."
     return pancore.conclude(chk, ok, broken, "Props/C14.v", res, viol, model_only, "C14",
                             "Core.Interp (Iter#new/next/_iter, recur) vs evaluator/{iternew,iternext}.go, props/iter_props.go")
